@@ -255,7 +255,13 @@ def run_diff(ctx, mods, keyfn=default_key, on_build_failure='violation', workdir
                           '%s%r: expected %s got %s' % (tag, tuple(inp), short(exp), short(got)),
                           _replay_case(m, fname, tag, inp, exp, got))
 
-    refine = []
+    # A group whose child died (crash/timeout) is refined in two bounded stages so that a crash *storm*
+    # (a defect that makes thousands of evaluations kill their child) cannot make the check run for hours:
+    # stage 1 re-runs the group one function per case; stage 2 re-runs at most MAX_REFINE_INPUTS inputs of at
+    # most MAX_REFINE_FUNCS crashing functions one evaluation per case.  Whatever is cut is reported (violation
+    # at function level, stats['crash_storm_cut'], exhaustive False in the caller's evidence via stats).
+    MAX_REFINE_FUNCS, MAX_REFINE_INPUTS = 60, 64
+    stage1 = []
     for (light, work), m, r in zip(cases, owners, results):
         if r[0] == 'ok':
             handle(m, r[1])
@@ -263,19 +269,45 @@ def run_diff(ctx, mods, keyfn=default_key, on_build_failure='violation', workdir
             ctx.violation('harness-exc|%s' % m.name, 'driver exception: %s' % r[1][-1500:],
                           {'kind': 'harness', 'source': m.source, 'trace': r[1][-3000:]})
         else:
-            # crash/timeout somewhere in this group: refine to single (function, input) cases
             for fname, tag, ins in work:
-                for inp in ins:
-                    refine.append(((light, [(fname, tag, [inp])]), m, fname, tag, inp, r[0]))
+                stage1.append(((light, [(fname, tag, ins)]), m, fname, tag, ins, light))
+    refine = []
+    if stage1:
+        ctx.log('refining %d functions after crash/timeout' % len(stage1))
+        r1 = runner.run_cases(_sweep, [x[0] for x in stage1], timeout=max(120, timeout // 4), scratch=ctx.scratch)
+        crashed_funcs = 0
+        for (case, m, fname, tag, ins, light), r in zip(stage1, r1):
+            if r[0] == 'ok':
+                handle(m, r[1])
+            elif r[0] == 'exc':
+                ctx.violation('harness-exc|%s' % m.name, 'driver exception: %s' % r[1][-1500:],
+                              {'kind': 'harness', 'source': m.source, 'trace': r[1][-3000:]})
+            else:
+                crashed_funcs += 1
+                if crashed_funcs <= MAX_REFINE_FUNCS:
+                    for inp in ins[:MAX_REFINE_INPUTS]:
+                        refine.append(((light, [(fname, tag, [inp])]), m, fname, tag, inp, r[0]))
+                    if len(ins) > MAX_REFINE_INPUTS:
+                        stats['crash_storm_cut'] = stats.get('crash_storm_cut', 0) + len(ins) - MAX_REFINE_INPUTS
+                else:
+                    stats['crash_storm_cut'] = stats.get('crash_storm_cut', 0) + len(ins)
+                    stats['crashes'] += 1
+                    got = ('crash', r[0], r[1])
+                    ctx.violation(keyfn(tag, ins[0], ('ok', ('?', '?')), got),
+                                  '%s: %s %s somewhere in its %d inputs (crash storm: not refined further)' % (
+                                      tag, r[0], r[1], len(ins)),
+                                  _replay_case(m, fname, tag, ins[0], None, got))
     if refine:
         ctx.log('refining %d evaluations after crash/timeout' % len(refine))
         rr = runner.run_cases(_sweep, [x[0] for x in refine], timeout=60, scratch=ctx.scratch)
+        reproduced = set()
         for (case, m, fname, tag, inp, why), r in zip(refine, rr):
             if r[0] == 'ok':
                 handle(m, r[1])
             elif r[0] in ('crash', 'timeout'):
                 stats['crashes'] += 1
                 stats['evaluations'] += 1
+                reproduced.add((m.name, fname))
                 got = ('crash', r[0], r[1])
                 ctx.violation(keyfn(tag, inp, ('ok', ('?', '?')), got),
                               '%s%r: %s %s; output tail: %s' % (tag, tuple(inp), r[0], r[1], (r[2] or '')[-400:]),
@@ -283,6 +315,18 @@ def run_diff(ctx, mods, keyfn=default_key, on_build_failure='violation', workdir
             else:
                 ctx.violation('harness-exc|%s' % m.name, 'driver exception: %s' % r[1][-1500:],
                               {'kind': 'harness', 'source': m.source, 'trace': r[1][-3000:]})
+        # a function that crashed as a whole but none of whose refined single evaluations crashed:
+        # history-dependent crash (or beyond the input cap) -> still a violation, attributed to the function
+        seen_f = set()
+        for (case, m, fname, tag, inp, why) in refine:
+            if (m.name, fname) in reproduced or (m.name, fname) in seen_f:
+                continue
+            seen_f.add((m.name, fname))
+            stats['crashes'] += 1
+            got = ('crash', why, 'not reproduced on single evaluations')
+            ctx.violation(keyfn(tag, inp, ('ok', ('?', '?')), got),
+                          '%s: child died (%s) while sweeping this function; no single evaluation reproduces it' % (tag, why),
+                          _replay_case(m, fname, tag, inp, None, got))
     return stats
 
 
